@@ -110,7 +110,7 @@ CHECKS = {
          "The check verifies first that the clock is under control (else exit 2).", "DESIGN.md 4/C19"),
 }
 PENDING = {}
-LEVELS = {"C12": "fault_enumeration", "C18": "fault_enumeration"}
+LEVELS = {"C12": "fault_enumeration", "C18": "fault_enumeration", "C17": "fault_enumeration"}
 
 def main():
     props = [json.loads(l) for l in open(os.path.join(HERE, "properties.jsonl"))]
